@@ -594,6 +594,9 @@ pub enum Alphabet {
     Structural,
     /// insert / remove / retain / clear (+ Entry API, collect): canonical shapes only
     Canonical,
+    /// every operation that can store, replace or drop a representation (used with the
+    /// representation of every node in the state key)
+    Repr,
 }
 
 /// enumerate the operations enabled in a state (they depend on the state only through the stored
@@ -636,6 +639,20 @@ pub fn enumerate_ops(uni: &Universe, model: &Model, alpha: Alphabet, rep_mode: u
             (K::ViewRemove, vec![0]),
         ],
         Alphabet::Canonical => vec![(K::Insert, vec![0]), (K::EntryOrInsert, vec![0]), (K::Remove, vec![0])],
+        Alphabet::Repr => vec![
+            (K::Insert, vec![0]),
+            (K::EntryInsert, vec![0]),
+            (K::EntryOrInsert, vec![0]),
+            (K::EntryAndModifyOrInsert, vec![0]),
+            (K::EntryMatch, vec![0, 1, 2]),
+            (K::Remove, vec![0]),
+            (K::RemoveKeepTree, vec![0]),
+            (K::RemoveChildren, vec![0]),
+            (K::GetMutWrite, vec![0]),
+            (K::ViewSet, vec![0]),
+            (K::ViewRemove, vec![0]),
+            (K::IntoChildrenCollect, vec![0]),
+        ],
     };
     for key in 0..nkeys {
         for (kind, args) in &per_key {
@@ -649,6 +666,11 @@ pub fn enumerate_ops(uni: &Universe, model: &Model, alpha: Alphabet, rep_mode: u
     }
     // key-less operations
     v.push(Op { kind: K::Clear, key: 0, rep: 0, arg: 0 });
+    if alpha == Alphabet::Repr {
+        for kind in [K::CloneSelf, K::Recollect, K::RecollectRev, K::FromIterDup] {
+            v.push(Op { kind, key: 0, rep: 0, arg: 0 });
+        }
+    }
     if alpha == Alphabet::Full {
         for kind in [K::IterMutWrite, K::ValuesMutWrite, K::CloneSelf, K::Recollect, K::RecollectRev, K::FromIterDup] {
             v.push(Op { kind, key: 0, rep: 0, arg: 0 });
